@@ -293,3 +293,47 @@ Check C17_there_and_back_float_linear : forall ua ub la lb v,
     Rv r4 = Rv v * ((1 + e1) * (1 + e2) * (1 + e3) * (1 + e4)) /\
     Rabs (Rv r4 - Rv v) <= ((1 + u53) * (1 + u53) * (1 + u53) * (1 + u53) - 1) * Rabs (Rv v))%R.
 Print Assumptions C17_there_and_back_float_linear.
+
+(* EXTENSION ROUND (proofs/UnitsFloatKinds.v): the binary64 there-and-back bound for LINEAR AND RECIPROCAL units
+   in any mixture (the theorem above is the linear/linear case).  kind_coef u = Some (k, c): k = false linear,
+   k = true reciprocal (None: temperature, not covered).  step_R k to_base c x is the exact real operation of one
+   step (x*c, x/c, or c/x); the value is a finite non-zero double, so the `value == 0.0` branch of the reciprocal
+   kind is not taken.  A -> B -> A is v * (1+d1)(1+d2)(1+d3)(1+d4) with |di| <= u53' = u/(1-u), u = 2^-53 (an
+   error that lands in a denominator is 1/(1+e) = 1+d), provided the four exact intermediate results are in the
+   normal range. *)
+Require Import Blots.proofs.UnitsFloatKinds.
+Theorem C17_there_and_back_float_lin_recip : forall ua ub ka kb la lb v,
+  kind_coef ua = Some (ka, la) -> kind_coef ub = Some (kb, lb) ->
+  let ca := num_of_bits (l_bits la) in
+  let cb := num_of_bits (l_bits lb) in
+  fin v -> fin ca -> fin cb ->
+  let r1 := convert_to_base fl ua v in
+  let r2 := through_base fl v ua ub in
+  let r3 := convert_to_base fl ub r2 in
+  let r4 := through_base fl r2 ub ua in
+  in_range (step_R ka true (Rv ca) (Rv v)) -> in_range (step_R kb false (Rv cb) (Rv r1)) ->
+  in_range (step_R kb true (Rv cb) (Rv r2)) -> in_range (step_R ka false (Rv ca) (Rv r3)) ->
+  exists d1 d2 d3 d4,
+    (Rabs d1 <= u53' /\ Rabs d2 <= u53' /\ Rabs d3 <= u53' /\ Rabs d4 <= u53' /\
+    Rv r4 = Rv v * ((1 + d1) * (1 + d2) * (1 + d3) * (1 + d4)) /\
+    Rabs (Rv r4 - Rv v) <= ((1 + u53') * (1 + u53') * (1 + u53') * (1 + u53') - 1) * Rabs (Rv v))%R.
+Proof. exact there_and_back_float_lin_recip. Qed.
+Check C17_there_and_back_float_lin_recip : forall ua ub ka kb la lb v,
+  kind_coef ua = Some (ka, la) -> kind_coef ub = Some (kb, lb) ->
+  let ca := num_of_bits (l_bits la) in
+  let cb := num_of_bits (l_bits lb) in
+  fin v -> fin ca -> fin cb ->
+  let r1 := convert_to_base fl ua v in
+  let r2 := through_base fl v ua ub in
+  let r3 := convert_to_base fl ub r2 in
+  let r4 := through_base fl r2 ub ua in
+  in_range (step_R ka true (Rv ca) (Rv v)) -> in_range (step_R kb false (Rv cb) (Rv r1)) ->
+  in_range (step_R kb true (Rv cb) (Rv r2)) -> in_range (step_R ka false (Rv ca) (Rv r3)) ->
+  exists d1 d2 d3 d4,
+    (Rabs d1 <= u53' /\ Rabs d2 <= u53' /\ Rabs d3 <= u53' /\ Rabs d4 <= u53' /\
+    Rv r4 = Rv v * ((1 + d1) * (1 + d2) * (1 + d3) * (1 + d4)) /\
+    Rabs (Rv r4 - Rv v) <= ((1 + u53') * (1 + u53') * (1 + u53') * (1 + u53') - 1) * Rabs (Rv v))%R.
+Print Assumptions C17_there_and_back_float_lin_recip.
+(* the reciprocal units of the table as it is (regenerated): the theorem's new scope *)
+Example C17_reciprocal_units_nonempty : reciprocal_units <> [].
+Proof. vm_compute. discriminate. Qed.
